@@ -1,6 +1,15 @@
 package harness
 
 import (
+	"github.com/acquirecloud/golibs/chans"
+	gbytes "github.com/acquirecloud/golibs/container/bytes"
+	glru "github.com/acquirecloud/golibs/container/lru"
+	distlock "github.com/acquirecloud/golibs/kvs/distlock"
+	"github.com/acquirecloud/golibs/kvs/inmem"
+	gredis "github.com/acquirecloud/golibs/kvs/redis"
+	"github.com/acquirecloud/golibs/timeout"
+	"github.com/acquirecloud/golibs/ulidutils"
+
 	"verifharness/sim"
 	"verifharness/worlds/blocks"
 	"verifharness/worlds/kv"
@@ -20,4 +29,19 @@ var worlds = map[string]worldDef{
 	"kv":    {New: kv.New, Generate: kv.Generate},
 	"blocks": {New: blocks.New, Generate: blocks.Generate},
 	"lru":   {New: lru.New, Generate: lru.Generate},
+}
+
+func init() {
+	// rewriter rule R8: package-level variables of the instrumented packages whose
+	// initialiser read the real clock are evaluated again on the simulated one
+	sim.PreSetup = func() {
+		chans.ZverifReinitClockVars()
+		gbytes.ZverifReinitClockVars()
+		glru.ZverifReinitClockVars()
+		distlock.ZverifReinitClockVars()
+		inmem.ZverifReinitClockVars()
+		gredis.ZverifReinitClockVars()
+		timeout.ZverifReinitClockVars()
+		ulidutils.ZverifReinitClockVars()
+	}
 }
